@@ -1,1 +1,7 @@
-//! reference models
+//! Reference models (harness, Rust, written from the manual).
+pub mod funcs;
+pub mod input;
+pub mod interp;
+pub mod print;
+pub mod store;
+pub mod value;
